@@ -42,6 +42,13 @@ def make_collection(kind, mps, runtime=False):
         add(2, 0, _blob(9, mps - 1))
         add(3, 0, bytes([4, 3, 0x09, 0x04]))
         add(3, 1, _blob(11, mps))
+    elif kind == "pow2":
+        # the LONGEST descriptor is exactly 2*mps bytes (a power of two for mps = 8/16/32/64): the one-past-the-end
+        # continuation position equals a power of two (position register width; seeded change C09c)
+        add(1, 0, _blob(1, mps))
+        add(2, 0, _blob(2, 2 * mps))
+        add(3, 0, bytes([4, 3, 0x09, 0x04]))
+        add(3, 1, _blob(5, mps + 3))
     elif kind == "suite":
         # the collection of tests/test_usb2_descriptor.py (device/config/strings, index 0xfe, HID type 0x21)
         from usb_protocol.emitters.descriptors.standard import get_string_descriptor
